@@ -129,8 +129,11 @@ pub fn run(ctx: &Ctx) -> ! {
             let tz_env = ZONES[rng.below(ZONES.len())].to_string();
             let mut worlds = vec![];
             for (ci, (c, is_judged)) in chunk.iter().enumerate() {
-                let n_nodes = rng.range(2, if ctx.quick() { 4 } else { 6 });
-                let mut zones: Vec<String> = vec![];
+                // hand-written probes run under every zone of the list (+ Local): a dependence that only shows for the
+                // one zone whose offset matches the data must not be left to chance
+                let is_probe = c.tags.iter().any(|t| t.starts_with("tz-"));
+                let n_nodes = if is_probe { ZONES.len() + 1 } else { rng.range(2, if ctx.quick() { 4 } else { 6 }) };
+                let mut zones: Vec<String> = if is_probe { ZONES.iter().map(|z| z.to_string()).chain(std::iter::once("Local".to_string())).collect() } else { vec![] };
                 while zones.len() < n_nodes {
                     let z = if rng.chance(0.25) { "Local".to_string() } else { ZONES[rng.below(ZONES.len())].to_string() };
                     if !zones.contains(&z) {
@@ -186,7 +189,7 @@ pub fn run(ctx: &Ctx) -> ! {
                     zs.sort_unstable();
                     let key = format!("{src}|{zs:?}|{:?}", s.tz_env);
                     let fresh = ev.distinct.insert(fnv(key.as_bytes()));
-                    if fresh && samples.len() < 3 && ev.distinct.len() % 37 == 1 {
+                    if fresh && samples.len() < 3 && (samples.is_empty() || ev.distinct.len() % 37 == 1) {
                         samples.push(serde_json::json!({"program": src, "zones": zs, "TZ_env": s.tz_env, "clock": w.clock, "outcome_under_all_zones": wr.obs.first().map(|o| o.outcome.clone())}));
                     }
                 }
